@@ -14,7 +14,6 @@ import (
 	"github.com/bartossh/Computantis/src/protobufcompiled"
 	"github.com/bartossh/Computantis/src/spice"
 	"github.com/bartossh/Computantis/src/transaction"
-	"github.com/bartossh/Computantis/src/transformers"
 	"verif.local/harness/common"
 	"verif.local/harness/world"
 	"verif.local/vsched"
@@ -125,7 +124,7 @@ func (m *Model) Init() {
 	R, A, B := world.Cast("R"), world.Cast("A"), world.Cast("B")
 	origin := m.byName[m.Cfg.Origin]
 	propose := func(t transaction.Transaction) {
-		pt, err := transformers.TrxToProtoTrx(t)
+		pt, err := world.TrxToProto(t)
 		if err != nil {
 			panic(err)
 		}
@@ -370,7 +369,7 @@ func (m *Model) apply(e string) (res string, direct [32]byte, node string) {
 		}
 		t2 := world.MakeTx(world.Cast("R"), world.Cast("B").Addr, lbl, nil, spice.Melange{Currency: 1}, seq)
 		m.W.Ref.LabelTx(lbl, t2)
-		pt, err := transformers.TrxToProtoTrx(t2)
+		pt, err := world.TrxToProto(t2)
 		if err != nil {
 			panic(err)
 		}
@@ -395,7 +394,7 @@ func (m *Model) apply(e string) (res string, direct [32]byte, node string) {
 		// that admits it takes the transaction off its awaiting list (late transaction messages may still be in flight)
 		m.settled = true
 		origin := m.byName[m.Cfg.Origin]
-		pt, err := transformers.TrxToProtoTrx(world.CounterSign(m.contract, world.Cast("B")))
+		pt, err := world.TrxToProto(world.CounterSign(m.contract, world.Cast("B")))
 		if err != nil {
 			panic(err)
 		}
